@@ -336,6 +336,9 @@ def run(rep, tier, seed, selftest):
     rnd = random.Random(seed)
     ids = sorted(cases)
     sample = [i for i in ids if rnd.random() < 0.05 and len(json.dumps(cases[i])) < 200000]
+    # ... and EVERY nesting input: the optimised binary has the 8 MiB stack of a main thread and its own frame sizes; the
+    # bound of the property (depth 256) is close to what it can take (a fix of this session moved the limit across it)
+    sample += [i for i in ids if cases[i].get("kind") == "nest"]
     anomalies = [i for i in ids if ends[i][0] not in ("success", "failure")]
     anomalies = sorted(set(anomalies[:200] + [i for i in anomalies if i in stack_pending]))
     root = os.path.join(common.WORK, "pipeline-emit-%d" % os.getpid())
